@@ -17,6 +17,23 @@ LEGAL_COUNTS = (12, 15, 18, 21, 24)
 ENT_BYTES = {12: 16, 15: 20, 18: 24, 21: 28, 24: 32}
 
 ASCII_WS = " \t\n\r\x0b\x0c"
+# The Unicode White_Space property (stable since Unicode 6.3): what "whitespace" means for phrase layouts.
+UNICODE_WS = ASCII_WS + "\x85\xa0\u1680" + "".join(chr(c) for c in range(0x2000, 0x200b)) + "\u2028\u2029\u202f\u205f\u3000"
+
+
+def split_ws(phrase):
+    """Words of a phrase: maximal runs of non-White_Space characters."""
+    out, cur = [], []
+    for ch in phrase:
+        if ch in UNICODE_WS:
+            if cur:
+                out.append("".join(cur))
+                cur = []
+        else:
+            cur.append(ch)
+    if cur:
+        out.append("".join(cur))
+    return out
 
 
 def encode(entropy):
